@@ -2,6 +2,9 @@ use crate::atom_table::*;
 use crate::machine::heap::*;
 use crate::types::*;
 
+use fxhash::FxBuildHasher;
+use indexmap::IndexMap;
+
 /* Use the pointer reversal technique of the Deutsch-Schorr-Waite
  * algorithm to detect cycles in Prolog terms.
  *
@@ -29,6 +32,11 @@ pub(crate) struct CycleDetectingIter<'a, const STOP_AT_CYCLES: bool> {
     next: u64,
     cycle_found: bool,
     mark_phase: bool,
+    // the value of a PStrLoc cell is the byte offset of its string,
+    // but the pointer reversed on its behalf is the one of the
+    // string's tail cell: the value cannot be recovered from the
+    // child's location when the traversal comes back.
+    pstr_loc_values: IndexMap<usize, u64, FxBuildHasher>,
 }
 
 impl<'a, const STOP_AT_CYCLES: bool> CycleDetectingIter<'a, STOP_AT_CYCLES> {
@@ -43,7 +51,23 @@ impl<'a, const STOP_AT_CYCLES: bool> CycleDetectingIter<'a, STOP_AT_CYCLES> {
             next,
             cycle_found: false,
             mark_phase: true,
+            pstr_loc_values: IndexMap::with_hasher(FxBuildHasher::default()),
         }
+    }
+
+    // undo the pointer reversal at loc: restore its value to the
+    // location of the child the traversal is coming back from, or,
+    // for a PStrLoc cell, to the string offset saved in forward().
+    #[inline]
+    fn restore_value(&mut self, loc: usize, child_loc: u64) {
+        if self.heap[loc].get_tag() == HeapCellValueTag::PStrLoc {
+            if let Some(pstr_loc) = self.pstr_loc_values.swap_remove(&loc) {
+                self.heap[loc].set_value(pstr_loc);
+                return;
+            }
+        }
+
+        self.heap[loc].set_value(child_loc);
     }
 
     #[inline]
@@ -214,6 +238,7 @@ impl<'a, const STOP_AT_CYCLES: bool> CycleDetectingIter<'a, STOP_AT_CYCLES> {
                         }
 
                         self.heap[tail_idx].set_forwarding_bit(true);
+                        self.pstr_loc_values.insert(self.current, h as u64);
 
                         self.next = self.heap[tail_idx].get_value();
                         self.heap[tail_idx].set_value(self.current as u64);
@@ -246,7 +271,7 @@ impl<'a, const STOP_AT_CYCLES: bool> CycleDetectingIter<'a, STOP_AT_CYCLES> {
 
         let temp = self.heap[self.current + 1].get_value();
 
-        self.heap[self.current + 1].set_value(self.next);
+        self.restore_value(self.current + 1, self.next);
         self.next = self.heap[self.current].get_value();
         self.heap[self.current].set_value(temp);
 
@@ -283,7 +308,7 @@ impl<'a, const STOP_AT_CYCLES: bool> CycleDetectingIter<'a, STOP_AT_CYCLES> {
                 }
 
                 self.heap[self.current].set_mark_bit(self.mark_phase);
-                self.heap[self.current].set_value(self.next);
+                self.restore_value(self.current, self.next);
 
                 let back_link_cell = self.heap[new_str_back_link];
 
@@ -312,7 +337,7 @@ impl<'a, const STOP_AT_CYCLES: bool> CycleDetectingIter<'a, STOP_AT_CYCLES> {
                     self.heap[self.current].set_mark_bit(self.mark_phase);
 
                     if self.heap[self.current - 1].get_forwarding_bit() {
-                        self.heap[self.current].set_value(self.next);
+                        self.restore_value(self.current, self.next);
                         self.next = self.current as u64 - 1;
                         self.current = temp as usize;
 
@@ -334,7 +359,7 @@ impl<'a, const STOP_AT_CYCLES: bool> CycleDetectingIter<'a, STOP_AT_CYCLES> {
         while self.continue_backward() {
             let temp = self.heap[self.current].get_value();
 
-            self.heap[self.current].set_value(self.next);
+            self.restore_value(self.current, self.next);
             self.next = self.current as u64;
             self.current = temp as usize;
         }
